@@ -226,8 +226,12 @@ func texts(n int, lead string, f func(string)) {
 func run(c *core.Ctx) {
 	var pi, n, k int
 	short := false
-	c.Res.Bound = fmt.Sprintf("text length <= %d over {a,b,\\n}; %d prefixes; all compositions; every stop point; <=1 empty write; nested writers: %d x %d prefixes, every sequence of <= %d writes of %d chunks to the inner or the outer writer, every stop point; large writes: texts of 4096, 4097, 8192, 8193 (thorough also 4095, 8191, 12289) bytes (around the block sizes 4096 and 8192) with line breaks never, always, every 7th and every 4096th byte, in one call and split at byte 4096, 2 prefixes, every stop point (every third beyond 9000 output bytes, all next to a multiple of 4096)", maxLen(c.Tier), len(prefixes), len(nestPrefixes), len(nestPrefixes), nestedDepth(c.Tier), len(nestChunks))
+	c.Res.Bound = fmt.Sprintf("text length <= %d over {a,b,\\n}; %d prefixes; all compositions; every stop point; <=1 empty write; nested writers: %d x %d prefixes, every sequence of <= %d writes of %d chunks to the inner or the outer writer, every stop point; every length 1..700 in one Write (at a line start, with and without a final line break, after a complete line; 3 prefixes); large writes: texts of 4096, 4097, 8192, 8193 (thorough also 4095, 8191, 12289) bytes (around the block sizes 4096 and 8192) with line breaks never, always, every 7th and every 4096th byte, in one call and split at byte 4096, 2 prefixes, every stop point (every third beyond 9000 output bytes, all next to a multiple of 4096)", maxLen(c.Tier), len(prefixes), len(nestPrefixes), len(nestPrefixes), nestedDepth(c.Tier), len(nestChunks))
 	var oi, ii int
+	if _, err := fmt.Sscanf(c.Shard, "len/%d", &oi); err == nil {
+		runLengths(c, oi)
+		return
+	}
 	if _, err := fmt.Sscanf(c.Shard, "large/%d/%d", &oi, &ii); err == nil {
 		runLarge(c, oi, ii)
 		return
